@@ -184,10 +184,13 @@ Fixpoint of_dvalue (v : dvalue) : sx :=
 
 (* 1500: simple_float(q, nsimplify=False) as a rational *)
 Definition x_sf (x : sx) : sx := of_Qc (sf (to_Qc x)).
-(* 1501: [ev table; call mode; value] -> [wire | (), deserialised | ()] *)
-Definition x_codec (x : sx) : sx :=
+(* 1501: [ev table; call mode; value] -> [wire | (), deserialised | ()]  -- the code as it is now ([cfg_now]) *)
+Definition x_codec_cfg (cf : cfg) (x : sx) : sx :=
   let ev := to_ev (nthx 0 x) in
   let cm := to_callmode (nthx 1 x) in
   let v := to_value 32 (nthx 2 x) in
-  let w := enc_value ev cm v in
-  L [of_opt of_wire w; of_opt of_dvalue (match w with Some w' => dec_wire w' | None => None end)].
+  let w := enc_value cf ev cm v in
+  L [of_opt of_wire w; of_opt of_dvalue (match w with Some w' => dec_wire cf w' | None => None end)].
+Definition x_codec (x : sx) : sx := x_codec_cfg cfg_now x.
+(* 1502: the same for the code before the repairs ([cfg_old]); historical, not used as "the code" by the driver *)
+Definition x_codec_old (x : sx) : sx := x_codec_cfg cfg_old x.
